@@ -12,6 +12,8 @@ import (
 // exclusions switch off, by construction, the input regions of open known findings.
 type exclusions struct {
 	destructure bool // C06-destructured-slot-props-empty: `="{ a, b }"` whose content reads a or b
+	frozen      bool // C06-include-in-slot-content-frozen: include tag in content that fills a slot more than once
+	layoutLeak  bool // C06-layout-leaks-instance-slot-content: layout instance lacking a name the page supplies somewhere
 }
 
 // chooser abstracts "pick one of n": rapid draws in the random search, a fixed script in the core.
@@ -181,8 +183,15 @@ func (b *builder) item(p string, scope []sv, depth int, bare bool) Node {
 	return n
 }
 
+// binds builds bound attributes. Only strings are bound: how a bound attribute treats numbers and
+// falsy values (0 is dropped) belongs to other properties.
 func (b *builder) binds(scope []sv, k int) []KV {
-	pr := printables(scope)
+	var pr []sv
+	for _, e := range printables(scope) {
+		if e.t == "s" {
+			pr = append(pr, e)
+		}
+	}
 	if len(pr) == 0 {
 		return nil
 	}
@@ -208,6 +217,11 @@ type compInfo struct {
 	elem  string // type of the items' elements and of `item`: "s" or "m"
 	slots map[string]slotInfo
 	order []string // slot names in a fixed order
+	// multi: the slot name can be rendered more than once per instance (used twice, or in a loop)
+	multi map[string]bool
+	// innerOpen (nested component only): slot names of the component it includes that its own include
+	// tag leaves unsupplied
+	innerOpen []string
 }
 
 func (ci compInfo) title() string { return fmt.Sprintf("title%d", ci.idx) }
@@ -286,7 +300,10 @@ func (b *builder) useNodes(ci compInfo, p string, u useSpec, fm bool) []Node {
 }
 
 // leaf builds a component whose body is a root element with a header and the slot uses.
-func (b *builder) leaf(ci compInfo, uses []useSpec, fm bool, extra []Node) Comp {
+//
+// shape: "div" = one root element; "flat" = no root element (header and slot positions are the
+// top-level nodes of the file); "template" = the flat body wrapped in a <template> root.
+func (b *builder) leaf(ci compInfo, uses []useSpec, fm bool, extra []Node, shape string) Comp {
 	p := fmt.Sprintf("k%d", ci.idx)
 	hdr := []Part{{X: ci.title()}}
 	if fm {
@@ -299,6 +316,12 @@ func (b *builder) leaf(ci compInfo, uses []useSpec, fm bool, extra []Node) Comp 
 	}
 	root.Kids = append(root.Kids, extra...)
 	cp := Comp{Nodes: []Node{root}}
+	switch shape {
+	case "flat":
+		cp.Nodes = root.Kids
+	case "template":
+		cp.Nodes, cp.Wrap = root.Kids, true
+	}
 	if fm {
 		cp.FM = []KV{{K: ci.fmk(), V: fmt.Sprintf("F%d", ci.idx)}}
 	}
